@@ -261,6 +261,12 @@ impl<'a> Lexer<'a> {
                         }
                         // Scan expression
                         let expr = self.scan_fstring_expr();
+                        if expr.trim().is_empty() {
+                            self.errors.push(CompileError::new(
+                                "Empty expression in f-string".to_string(),
+                                Span::new(start, self.current_pos),
+                            ));
+                        }
                         parts.push(FStringPart::Expr(expr));
                     }
                 }
